@@ -375,7 +375,7 @@ impl Scenario for RomLoadFaults {
             Ok(s) => s,
             Err(_) => return vec![],
         };
-        let _ = std::fs::remove_file(&path);
+        let path2 = path.clone();
         let stderr = String::from_utf8_lossy(&se).to_string();
         // classification does not depend on the wording of the loader's messages: a file was accepted iff the boot stub ran
         // (its serial output ends with "OK"; the built-in fallback program ends with "GB")
@@ -509,10 +509,30 @@ impl Scenario for RomLoadFaults {
                         out.push(Violation::new("C19", "C19/decode/supported-type".to_string(), format!("type {:#04x}: create_cart_state {} but the supported set says {}", b.header[0x47], if r.is_ok() { "succeeded" } else { "refused" }, refh::supported_type(b.header[0x47]))));
                     }
                     ctx.cov.hit("probe.inprocess_header_decodes");
+                    // a loadable file: the core built from it must have ROM and cartridge-RAM storage of the table sizes
+                    if want == Want::Accept && b.declared_len <= 0x200000 {
+                        if let Ok(f) = std::fs::File::open(&path2) {
+                            use std::os::unix::io::AsRawFd;
+                            let built_core = std::panic::catch_unwind(std::panic::AssertUnwindSafe(|| crate::machine::new_machine(false, f.as_raw_fd())));
+                            if let Ok(Ok(mut mm)) = built_core {
+                                let rom_len = mm.rom().len();
+                                let ram_len = mm.cram().len();
+                                let want_ram = refh::ram_bytes(b.header[0x49]).unwrap_or(0);
+                                if rom_len != b.declared_len {
+                                    out.push(Violation::new("C19", "C19/sizing/rom-buffer".to_string(), format!("ROM size code {:#04x}: the core maps {} bytes of ROM, the table says {}", b.header[0x48], rom_len, b.declared_len)));
+                                }
+                                if ram_len != want_ram {
+                                    out.push(Violation::new("C19", "C19/sizing/ram-buffer".to_string(), format!("type {:#04x}, RAM size code {:#04x}: the core has {} bytes of cartridge RAM, the table says {}", b.header[0x47], b.header[0x49], ram_len, want_ram)));
+                                }
+                                ctx.cov.hit("probe.inprocess_buffer_sizes_checked");
+                            }
+                        }
+                    }
                 }
                 Err(e) => out.push(Violation::new("C19", "C19/decode/read-header".to_string(), format!("read_header failed on a 0x150-byte file: {}", e))),
             }
         }
+        let _ = std::fs::remove_file(&path2);
         out
     }
 }
